@@ -9,6 +9,7 @@ Definition bs_item (s : bstore) (it : sx) : bstore * sx :=
   | L [A 1; A v] => (set_size s v, L [A 0])
   | L [A 2; A v] => (set_init s v, L [A 0])
   | L [A 3; A i; A b] => match poke s i b with Ok s' => (s', L [A 0]) | Err e => (s, sx_err e) end
+  | L [A 4; bs] => (set_contents s (un_zs bs), L [A 0])
   | L [A 10] => (s, L [A 0; A (bsize s); A (init_size s); sx_zs (bbytes s)])
   | L [A 11; A off; A size] => (s, L [A 0; sx_zs (block_contents s off size)])
   | L [A 12; ad; A off; A size; A a] => (s, L [A 0; sx_bool (contains_address (un_opt ad) off size a); sx_opt (block_address (un_opt ad) off)])
